@@ -201,7 +201,7 @@ theorem C05_send_after_sign (s : St) (env : HEnv) (sigs : List Sig) (nonces : Li
   rw [htr, hst]
   unfold handleSignSpec at hmem ⊢
   cases hsp : s.pending with
-  | none => simp [hsp] at hmem
+  | none => cases hg : nilGuard <;> simp [hsp, hg] at hmem
   | some b0 =>
     simp only [hsp] at hmem ⊢
     cases hpo : env.parseOk with
@@ -250,7 +250,7 @@ theorem C05_handler_error_sends_no_sig (s : St) (env : HEnv)
   rw [hrev, hpn]
   unfold handleSignSpec
   cases hsp : s.pending with
-  | none => simp
+  | none => cases nilGuard <;> simp
   | some b0 =>
     cases hpo : env.parseOk with
     | false => simp [hpo]
